@@ -180,7 +180,7 @@ def generate(ctx):
             for tag, s in strings:
                 check, ctag = _checks_for(rng, s)
                 yield "decode", dict(base, s=s, L=_width(rng, acc, start, s, fast), check=check, stag=tag, ctag=ctag,
-                                     npstr=rng.random() < 0.15, layout=rng.choice([None] * 9 + ["F"]))
+                                     npstr=rng.random() < 0.15, layout=rng.choice([None] * 9 + ["F", "i32", "i16"]))
 
 
 def check_edit_sequence(ctx, case):
@@ -205,8 +205,9 @@ def check_edit_sequence(ctx, case):
 def check_decode(ctx, case, acc_obj=None):
     dsw = import_dsw()
     acc = gens.acc_of(case) if acc_obj is None else acc_obj
-    if case.get("layout") == "F":
-        acc = np.asfortranarray(acc)
+    if case.get("layout"):
+        acc = gens.as_layout(acc, case["layout"])
+        ctx.cls("accessor layout|" + case["layout"])
     s, L, start, fast, check = case["s"], case["L"], case["start"], case["fast"], case["check"]
     w = G.walk(acc, start, s)
     acgt = all(c in "ACGT" for c in s)
